@@ -80,6 +80,7 @@ CONTRACTS["mingus.extra.tunings.fingers_needed"] = dict(
     returns="int", modifies=[],
     ensures=[("one-finger-per-pressed-string-barre-counted-once", "result == fingers_spec(fingering)")],
     split=[{"param_types": {"fingering": "[" + ",".join(["int"] * k) + "]"}} for k in range(1, 6)],
+    split_thorough=[{"param_types": {"fingering": "[" + ",".join(["int"] * k) + "]"}} for k in range(1, 7)],
     split_is_domain=True, properties=["C20"], battery="fingerings",
     notes="domain: fingerings of 1..5 strings with arbitrary frets 0..24 (at least one pressed)")
 
